@@ -4,6 +4,10 @@
 usage: seed_matrix.py [ID-n ...] [--tier quick]"""
 import json, os, re, shutil, subprocess, sys, time
 args = [a for a in sys.argv[1:] if not a.startswith("--")]
+OUT = "/verif/seeded/MATRIX.json"
+if "--out" in sys.argv:  # several instances can run side by side on disjoint subsets, each with its own result file
+    OUT = sys.argv[sys.argv.index("--out") + 1]
+    args = [a for a in args if a != OUT]
 tier = "quick"
 if "--tier" in sys.argv:
     tier = sys.argv[sys.argv.index("--tier") + 1]
@@ -15,8 +19,8 @@ try:
     subprocess.run(["git", "clone", "-q", "/repo", root + "/repo"], check=True)
     names = args or sorted(d for d in os.listdir("/verif/seeded") if os.path.exists(os.path.join("/verif/seeded", d, "meta.json")))
     res = {}
-    if os.path.exists("/verif/seeded/MATRIX.json") and args:
-        res = json.load(open("/verif/seeded/MATRIX.json"))
+    if os.path.exists(OUT) and args and "--out" not in sys.argv:
+        res = json.load(open(OUT))
     for name in names:
         d = os.path.join("/verif/seeded", name)
         meta = json.load(open(os.path.join(d, "meta.json")))
@@ -41,8 +45,8 @@ try:
         print(name, "CAUGHT" if res[name]["caught"] else "MISSED exit=%d" % p.returncode, sigs[:1], flush=True)
         subprocess.run("git checkout -q -- . && git clean -fdq", shell=True, cwd=root + "/repo")
         shutil.rmtree(root + "/verif/replays", ignore_errors=True)
-        json.dump(res, open("/verif/seeded/MATRIX.json", "w"), indent=1, sort_keys=True)
-    json.dump(res, open("/verif/seeded/MATRIX.json", "w"), indent=1, sort_keys=True)
+        json.dump(res, open(OUT, "w"), indent=1, sort_keys=True)
+    json.dump(res, open(OUT, "w"), indent=1, sort_keys=True)
     missed = [k for k, v in res.items() if not v.get("caught")]
     print("total", len(res), "missed", missed)
 finally:
